@@ -87,6 +87,7 @@ pub fn check_invariants(sc: &Scenario, tr: &Trace) -> CheckResult {
     let mut sent: BTreeMap<usize, usize> = BTreeMap::new();
     let mut sysinfo_seen: BTreeMap<usize, usize> = BTreeMap::new();
     let mut last_rx_kind: BTreeMap<usize, Kind> = BTreeMap::new();
+    let mut refused: std::collections::BTreeSet<usize> = Default::default(); // connections on which the terminal sent an abort / a NACK
     for e in &slog {
         match e {
             SEv::Rx { conn, kind, .. } => {
@@ -97,6 +98,9 @@ pub fn check_invariants(sc: &Scenario, tr: &Trace) -> CheckResult {
             }
             SEv::Tx { conn, apdu, .. } => {
                 *sent.entry(*conn).or_insert(0) += apdu.len();
+                if apdu.len() >= 2 && ((apdu[0] == 0x06 && apdu[1] == 0x1e) || apdu[0] == 0x84) {
+                    refused.insert(*conn);
+                }
                 if apdu.len() > 3 && apdu[0] == 0x06 && apdu[1] == 0x0f && last_rx_kind.get(conn) == Some(&Kind::SystemInfo) && sysinfo_seen.get(conn) == Some(&1) {
                     if let Ok((val, _)) = decode(&t, &t["feig.CVendFunctionsEnhancedSystemInformationCompletion"], apdu) {
                         if get_s(&val, "device_id").map(|s| s.to_lowercase()) != Some(serial.clone()) {
@@ -212,6 +216,20 @@ pub fn check_invariants(sc: &Scenario, tr: &Trace) -> CheckResult {
                 let regs = follow.iter().filter(|e| matches!(e, CEv::Write { conn, bytes, .. } if conn == c && bytes.len() >= 2 && bytes[0] == 0x06 && bytes[1] == 0x00)).count();
                 if regs > 0 {
                     return v("I4", "re-registration-on-healthy-connection", format!("the next call sent a Registration on the healthy connection {c}"));
+                }
+            }
+        }
+    }
+    // I6: a connection on which the terminal never failed, refused or identified itself wrongly - it merely took its time,
+    //     always less than the per-packet time-out - is not given up by the client while the calls are running
+    if let Some(last) = tr.calls.last() {
+        for (c, cv) in &vs {
+            let clean = !faults.contains_key(c) && !wrong_serial.contains_key(c) && !refused.contains(c);
+            if clean && cv.open.is_some() {
+                if let Some(d) = cv.drop {
+                    if d < last.clog_to {
+                        return v("I6", "connection-given-up-without-a-failure", format!("connection {c}: the terminal delivered no fault, no refusal and the right serial number on it (it was at most slow, inside the time-out), yet the client closed it while the calls were still running"));
+                    }
                 }
             }
         }
@@ -353,6 +371,28 @@ pub fn run(tier: Tier) -> i32 {
             ctx.record(check_scenario(&sc), &mut s1b);
         }
     }
+    // a reconnect whose handshake is slow, followed by an exchange whose first reply is slow: every single wait is inside
+    // the per-packet time-out (60 s), their sum is not (the handshake as a whole stays below it too) - the fresh connection must be kept all the same
+    for (dh, dr) in [(25_000u64, 25_000u64), (29_000, 29_000), (20_000, 35_000), (1_000, 55_000), (28_000, 50_000)] {
+        for op in ["begin", "commit", "cancel", "configure"] {
+            let mut sc = base_scenario(op, cfg0.clone());
+            sc.sim.intermediates = 1;
+            // an earlier read_card whose connection the terminal drops once the exchange is complete
+            sc.ops.insert(0, Op::ReadCard);
+            sc.ops.push(Op::ReadCard);
+            let mut plan = vec![PlanEntry { kind: Kind::ReadCard, occ: Some(0), from_start: false, directive: Directive { fault: Some((FaultKind::Close, 99)), ..Default::default() } }];
+            for k in [Kind::Registration, Kind::SystemInfo] {
+                plan.push(PlanEntry { kind: k, occ: Some(0), from_start: false, directive: Directive { delay_ms: Some((98, dh)), ..Default::default() } });
+            }
+            for k in [Kind::Reservation, Kind::PartialReversal, Kind::PreAuthReversal, Kind::Init] {
+                plan.push(PlanEntry { kind: k, occ: Some(0), from_start: false, directive: Directive { delay_ms: Some((1, dr)), ..Default::default() } });
+            }
+            sc.plan = plan;
+            s1b.case(true, fnv(&serde_json::to_vec(&sc).unwrap()));
+            s1b.class("slow-handshake-then-slow-first-reply");
+            ctx.record(check_scenario(&sc), &mut s1b);
+        }
+    }
     stats.merge(s1b);
     // 1b. configurations: the registration on every (re)connection carries the configured password and currency
     let s = ctx.shards("configs", 8, |_i, seed, st| {
@@ -399,7 +439,7 @@ pub fn run(tier: Tier) -> i32 {
     stats.exhaustive_parts = vec!["single faults {close, garbage, NACK, silence} at every packet position of every exchange of each of the 6 operations (handshake included, also the handshake of a forced reconnect), wrong serial at the identity check; each followed by a further call".into()];
     ctx.finish(
         stats,
-        "the real Feig client against the simulated terminal on paused time; positions from a fault-free dry run; one fault per position and kind (exhaustive), configured serial numbers that are a prefix / empty / longer / one character off the reported one, then proptest plans of 2..6 faults (incl. several wrong-serial connections in a row), each followed by one more fault-free call. Oracle = invariants over the client-side per-connection log: I1 every connection starts with Registration(password, config byte, currency) then the system-info query before any other command; I2 nothing but one ack is written after a wrong serial and the connection is closed; I3 after a delivered fault (garbage/NACK read, EOF, time-out after silence) nothing is written on that connection and it is dropped before the next one opens; I4 a connection whose exchanges all completed is kept and reused without a new Registration; I5 no command is written on a connection whose terminal is still inside an exchange. Also: 1..9 consecutive silent attempts inside Feig::new and a slow terminal (every packet 10..59 s late, minutes per exchange) followed by further calls. non-trivial = fault at a handshake position or at a reply position >= 1, every multi-fault plan; distinct by scenario",
+        "the real Feig client against the simulated terminal on paused time; positions from a fault-free dry run; one fault per position and kind (exhaustive), configured serial numbers that are a prefix / empty / longer / one character off the reported one, then proptest plans of 2..6 faults (incl. several wrong-serial connections in a row), each followed by one more fault-free call. Oracle = invariants over the client-side per-connection log: I1 every connection starts with Registration(password, config byte, currency) then the system-info query before any other command; I2 nothing but one ack is written after a wrong serial and the connection is closed; I3 after a delivered fault (garbage/NACK read, EOF, time-out after silence) nothing is written on that connection and it is dropped before the next one opens; I4 a connection whose exchanges all completed is kept and reused without a new Registration; I5 no command is written on a connection whose terminal is still inside an exchange; I6 a connection on which the terminal delivered no fault, refusal or wrong serial (it was at most slow, inside the time-out) is not given up while calls are running. Also: 1..9 consecutive silent attempts inside Feig::new and a slow terminal (every packet 10..59 s late, minutes per exchange) followed by further calls; a reconnect with a slow handshake followed by a slow first reply (each wait below the time-out, the sum above it). non-trivial = fault at a handshake position or at a reply position >= 1, every multi-fault plan; distinct by scenario",
         &["the client-side log is written by the stream object handed to the client (virtual time stamps), so orderings do not depend on task scheduling", "fault kinds of Appendix C; RSTs / short writes are not modelled"],
         false,
     )
